@@ -67,6 +67,7 @@ impl Case {
             mount_boundary: false,
             entropy: 3,
             umask: None,
+            stdout_tty: false,
         }
     }
 }
